@@ -20,7 +20,7 @@ for pid in ids:
         "replay_cmd_template": "./check %s --replay {path}" % pid,
         "engine": c["pkg"],
         "level_claimed": {"category": c["level"], "text": c["level_text"], "design_ref": "DESIGN.md section " + c["design_ref"]},
-        "level_note": c["level_note"],
+        "level_note": c["level_note"] + ((" Layers: " + c["layers"] + ".") if c.get("layers") else ""),
         "technique": c["technique"],
     })
 na = [{"property_id": pid, "reason": NOT_APPLICABLE.get(pid, "no check built yet; not claimed")} for pid in ids if pid not in PROPS]
